@@ -9,7 +9,7 @@ CFG = dict(
     translators=["tr-bind"],
     # the regenerated tables are compiled with the models: the cases files of the quick set load them
     model_targets=["Bind/Cases.vo", "Bind/LitCases.vo"] + ["gen/Bind_%s_gen.vo" % t for t in _SHARDS]
-                  + ["gen/BindXDrift_gen.vo"] + ["gen/BindX_%s_gen.vo" % t for t in _XSHARDS],
+                  + ["gen/BindW_gen.vo", "gen/BindXDrift_gen.vo"] + ["gen/BindX_%s_gen.vo" % t for t in _XSHARDS],
     # the tables are checked completely on the first run: other seeds cannot find anything new
     search_seeds=[],
     proof_targets=["Props/C14.vo"],
